@@ -524,11 +524,12 @@ impl Property for C19 {
         // (iii) child process
         if sc.via_child {
             out.engine = "child_process";
-            let o = std::process::Command::new(&env.self_exe)
+            let mut o = std::process::Command::new(&env.self_exe);
+            let o = o
                 .arg("--child-gen")
                 .arg(serde_json::to_string(sc).unwrap())
-                .output()
-                .expect("spawn child");
+                .stdin(std::process::Stdio::null());
+            let o = crate::cli::output_locked(o).expect("spawn child");
             let txt = String::from_utf8_lossy(&o.stdout).to_string();
             out.probe("child_process_compared");
             let want = format!("OBJ {:016x}", obj_digest(&a));
